@@ -149,6 +149,11 @@ End Order.
 (* ---------- hash feed: the sequence of Hasher writes ---------- *)
 Inductive hw := HI8 (z : Z) | HU64 (n : N) | HI64 (z : Z) | HStr (s : str) | HLen (n : nat).
 
+(* `member_hash` is what a fresh DefaultHasher answers (finish) after a sequence of writes: any function.  An object
+   writes its tag and then ONE u64: the wrapping sum of the hashes of its members (key then value), so that the
+   feed does not depend on the order of the members (objects are equal whatever that order) *)
+Section HashFeed.
+Variable member_hash : list hw -> N.
 Fixpoint hash_feed (v : json) : list hw :=
   match v with
   | JNull => [HI8 1]
@@ -157,10 +162,11 @@ Fixpoint hash_feed (v : json) : list hw :=
   | JNum (NNeg z) => [HI8 4; HI64 z]
   | JStr s => [HI8 5; HStr s]
   | JArr l => HI8 6 :: HLen (length l) :: flat_map hash_feed l
-  | JObj m => HI8 7 :: flat_map (fun kv => HStr (fst kv) :: hash_feed (snd kv)) m
+  | JObj m => [HI8 7; HU64 (fold_right (fun kv acc => (member_hash (HStr (fst kv) :: hash_feed (snd kv)) + acc) mod 18446744073709551616) 0 m)]
   | JBool true => [HI8 8]
   | JBool false => [HI8 9]
   end.
+End HashFeed.
 
 Definition type_name (v : json) : str :=
   match v with
